@@ -28,7 +28,8 @@ CFG = dict(
     min_counts={"any": {"page_returned_to_os": 500, "realloc_small_to_large": 500, "realloc_large_to_small": 300,
                         "drained_to_at_most_five_pages": 300, "block_released_by_another_thread": 100,
                         "freed_chunk_reused": 500,
-                        "second_single_threaded_instance_alive_during_threaded_phase": 50}},
+                        "second_single_threaded_instance_alive_during_threaded_phase": 50,
+                        "request_above_2GiB_forwarded_to_parent": 50}},
 )
 
 META = dict(
